@@ -1,4 +1,4 @@
-"""C09 -- computing changes is pure; performing touches only what was announced (R09.1-R09.10)."""
+"""C09 -- computing changes is pure; performing touches only what was announced (R09.1-R09.11)."""
 from __future__ import annotations
 
 import ast
@@ -24,6 +24,7 @@ EXPLANATION = (
     "paths with a prefix that ends in the separator.  R09.9: the analysis callback that runs inside every write absorbs ModuleSyntaxError.  Implicit internal exceptions are not decided."
     ' R09.10: a find_module result is tested for None before use in the refactoring modules.'
 )
+EXPLANATION += ' R09.11: a function that remembers its answer under a key reads, in the computation of the remembered value, nothing of its parameters that the key does not contain (followed into the helpers it calls).'
 ASSUMPTIONS = [
     "callee resolution without a type checker: see DESIGN.md section 2 (E2)",
     "resources handed in by the caller (constructor/get_changes parameters) are the caller's responsibility (CALLER provenance is accepted)",
@@ -191,7 +192,7 @@ NOT_A_RESOURCE: Dict[tuple, str] = {
 }
 
 
-def check(ctx, res) -> None:
+def _check_body(ctx, res) -> None:
     idx = ctx.idx
     cg = callgraph.get(ctx)
     sinks = perform_sinks(idx)
@@ -860,3 +861,10 @@ def _optional_module_rule(ctx, res) -> None:
                     f"`{v}` holds the result of find_module and is dereferenced as `{ast.unparse(bad[0][1])}` without a dominating None test: a request that "
                     "names a module which does not exist raises AttributeError instead of the library's refusal", function=f.qualname)
     res.floor("R09.10", "find_module results dereferenced in the refactoring modules", n, 1)
+
+
+def check(ctx, res) -> None:
+    _check_body(ctx, res)
+    from .common import memo_key_rule
+
+    memo_key_rule(ctx, res, "R09.11", ("rope.base.resources", "rope.base.project", "rope.base.fscommands", "rope.base.libutils"))
